@@ -13,6 +13,8 @@ func VerifHarness_C10_frame_spec() {
 	size, kind := vRefFrame(b)
 	vAssertIf(vAnd(kind != 0, len(b) >= size), vAnd(ok, n == size), "C10.frame_as_soon_as_complete")
 	vAssertIf(vAnd(kind != 0, len(b) < size), !ok, "C10.prefix_is_not_a_frame")
+	vAssertIf(vAnd(kind != 0, len(b) < size), err == errIncompleteTURNFrame, "C10.unfinished_frame_is_waited_for_not_rejected")
+	vAssertIf(len(b) < 4, err == errIncompleteTURNFrame, "C10.short_prefix_is_waited_for")
 	vAssertIf(vAnd(kind == 0, len(b) >= 20), err == errInvalidTURNFrame, "C10.garbage_is_an_error")
 	vAssertIf(kind == 0, !ok, "C10.never_data_without_frame")
 	vCover(vAnd(ok, n > 65535), "C10.cover_uint16_extreme_frame_returned")
